@@ -878,6 +878,36 @@ func main() {
 		}
 		runHistory(h, corrAll && j < cfg.Scale(60, 300), "reload-stale")
 	}
+	// the SAME item immediately before and after a Reload / Unload+Reload with other parameters (size, tweak, hash
+	// function count): anything remembered about "the last item" across calls must not survive the new message
+	for j := 0; j < cfg.Scale(40, 400); j++ {
+		x := itemOfLen(r, vh.Pick(r, itemLens))
+		sz1, sz2 := vh.Pick(r, []int{1, 2, 3, 8, 9, 33, 64}), vh.Pick(r, []int{1, 2, 3, 8, 9, 33, 64, 36000})
+		nh1, nh2 := uint32(1+r.Intn(8)), uint32(1+r.Intn(8))
+		tw1 := r.U32()
+		tw2 := vh.Pick(r, []uint32{tw1, tw1 + 1, r.U32()})
+		h := history{Init: recOf(make([]byte, sz1), nh1, tw1, 0)}
+		first := vh.Pick(r, []string{"add", "matches"})
+		h.Ops = append(h.Ops, opRec{Op: first, Data: vh.Hex(x)})
+		var m2 *msgRec
+		switch j % 3 {
+		case 0:
+			m2 = popMsg(sz2, nh2, tw2, 1, [][]byte{x}) // the peer's new filter contains x
+		case 1:
+			m2 = recOf(make([]byte, sz2), nh2, tw2, 1) // ... does not contain it
+		default:
+			m2 = popMsg(sz2, nh2, tw2, 1, [][]byte{itemOfLen(r, 20)})
+		}
+		if j%5 == 0 {
+			h.Ops = append(h.Ops, opRec{Op: "unload"}, opRec{Op: "matches", Data: vh.Hex(x)})
+		}
+		h.Ops = append(h.Ops, opRec{Op: "reload", Msg: m2}, opRec{Op: "matches", Data: vh.Hex(x)}, opRec{Op: "add", Data: vh.Hex(x)},
+			opRec{Op: "matches", Data: vh.Hex(x)})
+		if len(x) == 32 { // the same bytes through the hash and outpoint entry points
+			h.Ops = append(h.Ops, opRec{Op: "addhash", Data: vh.Hex(x)}, opRec{Op: "addoutpoint", Data: vh.Hex(x), Index: 7}, opRec{Op: "matchesoutpoint", Data: vh.Hex(x), Index: 7})
+		}
+		runHistory(h, corrAll && (sz2 <= 64) && j < cfg.Scale(30, 150), "reload-sameitem")
+	}
 	// unloaded filters: no reload at all
 	for j := 0; j < cfg.Scale(20, 200); j++ {
 		h := history{Init: nil, Ops: randOps(r, 2+r.Intn(8), false, 0)}
